@@ -393,6 +393,83 @@ Definition tagref_size (g : tag) : outcome N err :=
 Definition blob_write (d : bytes) : outcome bytes err := Ok d.
 Definition blob_size (d : bytes) : N := len d.
 
+(* ---- impl WriteTo for Object (gix-object/src/object/mod.rs): dispatch ------------------------- *)
+
+Inductive object := OTree (l : list entry) | OBlob (d : bytes) | OCommit (c : commit) | OTag (g : tag).
+
+Definition obj_kind (o : object) : kind :=
+  match o with OTree _ => KTree | OBlob _ => KBlob | OCommit _ => KCommit | OTag _ => KTag end.
+Definition obj_write (debug : bool) (o : object) : outcome bytes err :=
+  match o with
+  | OTree l => tree_write debug l | OBlob d => blob_write d
+  | OCommit c => commit_write c | OTag g => tag_write g
+  end.
+Definition obj_size (o : object) : N :=
+  match o with
+  | OTree l => tree_size l | OBlob d => blob_size d
+  | OCommit c => commit_size c | OTag g => tag_size g
+  end.
+(* WriteTo::loose_header *)
+Definition obj_loose_header (o : object) : bytes := loose_header (obj_kind o) (obj_size o).
+
+(* ---- tree decoding (gix-object/src/tree/ref_iter.rs: mode_from_decimal, fast_entry, tree) ----- *)
+
+(* mode_from_decimal: octal digits up to the first space; `(mode << 3) + digit` on a u32 silently
+   drops the bits shifted out (the addition cannot overflow: the low three bits are free) *)
+Fixpoint mode_from_decimal (i : bytes) (mode : N) : option (N * bytes) :=
+  match i with
+  | [] => None                                   (* i.len() < spacer_pos *)
+  | b :: r =>
+      if beqb b x20 then Some (mode, r)
+      else if (b2N b <? 48) || (55 <? b2N b) then None
+      else mode_from_decimal r ((mode * 8) mod 4294967296 + (b2N b - 48))
+  end.
+
+(* TryFrom<u32> for EntryMode *)
+Definition mode_try_from (m : N) : option N :=
+  if (m =? 16384) || (m =? 40960) || (m =? 57344) then Some (m mod 65536)
+  else if N.land m 32768 =? 32768 then Some (m mod 65536)
+  else None.
+
+Fixpoint split_nul (i : bytes) : option (bytes * bytes) :=
+  match i with
+  | [] => None
+  | b :: r => if is_nul b then Some ([], r)
+              else match split_nul r with Some (a, t) => Some (b :: a, t) | None => None end
+  end.
+
+Definition fast_entry (i : bytes) : option (bytes * entry) :=
+  match mode_from_decimal i 0 with
+  | None => None
+  | Some (m, i1) =>
+      match mode_try_from m with
+      | None => None
+      | Some mode =>
+          match split_nul i1 with
+          | None => None
+          | Some (filename, i2) =>
+              if Nat.ltb (length i2) 20 then None
+              else Some (skipn 20 i2, mkEntry mode filename (firstn 20 i2))
+          end
+      end
+  end.
+
+(* decode::tree: `while !i.is_empty()`; every entry consumes at least 22 bytes, fuel = length *)
+Fixpoint tree_decode_fuel (fuel : nat) (i : bytes) : outcome (list entry) err :=
+  match i with
+  | [] => Ok []
+  | _ =>
+      match fuel with
+      | O => OutOfFuel
+      | S f =>
+          match fast_entry i with
+          | None => Err EIo
+          | Some (rest, e) => (es <- tree_decode_fuel f rest ;; Ok (e :: es))%outcome
+          end
+      end
+  end.
+Definition tree_decode (i : bytes) : outcome (list entry) err := tree_decode_fuel (length i) i.
+
 (* ---- object ids ------------------------------------------------------------------------ *)
 
 Section Hash.
